@@ -151,6 +151,16 @@ where
                 std::thread::Builder::new()
                     .name(format!("checker-{}", t))
                     .spawn(move || {
+                        // Tell the other threads to stop when this one does, however it ends (also
+                        // by a panic in model code), like dropping a `JobBroker` does for the
+                        // other checkers. Otherwise `join` could wait forever for the siblings.
+                        struct ShutdownOnDrop(Arc<AtomicBool>);
+                        impl Drop for ShutdownOnDrop {
+                            fn drop(&mut self) {
+                                self.0.store(true, Ordering::Relaxed);
+                            }
+                        }
+                        let _shutdown_on_exit = ShutdownOnDrop(Arc::clone(&shutdown));
                         let mut seed = thread_seed;
                         log::debug!("{}: Thread started with seed={}.", t, seed);
                         // FIXME: use a reproducible rng, one that will not change over versions.
